@@ -62,6 +62,24 @@ def run_checks(wt):
     return fired
 
 
+def needs_from_readme(d: pathlib.Path) -> str:
+    """The paragraph of the seed's README that says what the change needs in order to manifest."""
+    import re
+
+    f = d / "README.md"
+    if not f.exists():
+        return ""
+    text = f.read_text()
+    paras = [re.sub(r"\s+", " ", p).strip() for p in re.split(r"\n\s*\n|\n(?=[-*] \*\*)|\n(?=\*\*)", text)]
+    for p in paras:
+        if re.match(r"^[-*]?\s*\**\s*(needed to manifest|what it needs|needs to manifest|needs|what is needed)", p, re.I):
+            return re.sub(r"^[-*]?\s*", "", p)[:900]
+    for p in paras:
+        if re.search(r"manifest|needs", p, re.I):
+            return p[:900]
+    return ""
+
+
 def recheck(seed_id):
     """Recompute `caught_by` of an already confirmed seed against the current checks (scratch worktree of /repo HEAD)."""
     dst = ROOT / "seeded" / seed_id
@@ -81,6 +99,8 @@ def recheck(seed_id):
         shutil.rmtree(tmp, ignore_errors=True)
     meta["caught_by"] = fired
     meta["detected"] = bool(fired)
+    meta["needs"] = needs_from_readme(dst) or meta.get("needs", "")
+    meta["repo_head_checked"] = sh("git -C /repo rev-parse --short HEAD")[1].strip()
     (dst / "meta.json").write_text(json.dumps(meta, indent=1) + "\n")
     print(seed_id, "caught by", sorted(fired))
     return 0
